@@ -12,10 +12,11 @@ from . import core
 from . import c02_common as cm
 
 PROP = "C05"
-LEAN_TARGETS = ["Asynkit.Props.C05"]
-PROPS_FILES = ["Asynkit/Props/C05.lean"]
+LEAN_TARGETS = ["Asynkit.Props.C05", "Asynkit.Lemmas.GenEqC05"]
+PROPS_FILES = ["Asynkit/Props/C05.lean", "Asynkit/Lemmas/GenEqC05.lean"]
 DRIVERS = ["Proto"]
 TRUSTED = [
+    "translator/wrappers2lean.py regenerates Asynkit/Gen/Wrappers.lean from coroutine.py on every run (coro_iter, coro_await, awaitmethod, awaitmethod_iter, await_sync, syncfunction, aiter_sync; statement by statement, generators/coroutines segment by segment); Lemmas/GenEqC05.lean proves each generated segment equal to the model's transition; trusted there: the meaning of the method calls (Model/WrapRt.lean)",
     "Lean 4.33 kernel; axioms ⊆ {propext, Classical.choice, Quot.sound} (audited per theorem each run)",
     "hand-written model Asynkit/Model/Wrappers.lean (awaitSync, aiterSync, CoroStart.throw/close/done/result), tied to "
     "coroutine.py:545-603 by this run's differential correspondence (lean/Drivers/Proto.lean `sync`/`aiter` lines)",
